@@ -367,6 +367,7 @@ type config struct {
 	ended   bool
 	touched bool // an option occurrence was extracted since the last positional / start
 	tainted bool
+	loose   bool   // a spec-level -- fired while the head token was dash-prefixed (superset of tainted)
 	bind    string // recorded bindings (Track)
 }
 
@@ -399,8 +400,14 @@ type Ref struct {
 	// exhausted Exceeded is set, the verdict is meaningless and the caller must set the case aside.
 	Budget   int
 	Exceeded bool
-	steps    int
-	Skips   int     // occurrences extracted from behind another token of the run
+	// TaintedAccept: some derivation consuming the whole argv is tainted (3.4c), whether or not it is kept
+	TaintedAccept bool
+	// TrackLoose makes the run distinguish derivations in which a spec-level -- fired in front of a dash-prefixed
+	// token at all; LooseAccept reports that such a derivation consumes the whole argv.
+	TrackLoose  bool
+	LooseAccept bool
+	steps       int
+	Skips       int // occurrences extracted from behind another token of the run
 }
 
 // cset maps each live configuration to the number of derivation prefixes reaching it (saturating);
@@ -572,8 +579,13 @@ func (r *Ref) match(n *Node, in cset) cset {
 			r.work(m)
 			c := r.norm(c0)
 			t := splitT(c.toks)
-			if !c.ended && c.touched && len(t) > 0 && strings.HasPrefix(t[0], "-") && t[0] != "-" {
-				c.tainted = true
+			if !c.ended && len(t) > 0 && strings.HasPrefix(t[0], "-") && t[0] != "-" {
+				if c.touched {
+					c.tainted = true
+				}
+				if r.TrackLoose {
+					c.loose = true
+				}
 			}
 			c.ended = true
 			out.add(c, m)
@@ -714,8 +726,14 @@ func (r *Ref) Run(spec *Node, argv []string) Verdict {
 		if c.toks != "" {
 			continue
 		}
-		if c.tainted && !r.Q.KeepTainted {
-			continue
+		if c.loose {
+			r.LooseAccept = true
+		}
+		if c.tainted {
+			r.TaintedAccept = true
+			if !r.Q.KeepTainted {
+				continue
+			}
 		}
 		if r.Expect != nil && !reflect.DeepEqual(CanonBind(c.bind), normBind(r.Expect)) {
 			continue
@@ -758,6 +776,30 @@ func HasHelpToken(argv []string) bool {
 		}
 		if a == "-h" || a == "--help" {
 			return true
+		}
+	}
+	return false
+}
+
+// HasDashResidue reports the unclaimed shape "-f-..." before the first "--": a short-form token in which a '-'
+// follows declared flag letters only. Removing the flags leaves "--..." which the library then reads as the
+// end-of-options marker or as a long option; neither reading is claimed.
+func HasDashResidue(d *Decls, argv []string) bool {
+	for _, a := range argv {
+		if a == "--" {
+			return false
+		}
+		if len(a) < 3 || a[0] != '-' || a[1] == '-' || a[2] == '=' {
+			continue
+		}
+		for j := 1; j < len(a); j++ {
+			if a[j] == '-' {
+				return true
+			}
+			o := d.Lookup("-" + a[j:j+1])
+			if o < 0 || !d.Opts[o].Bool {
+				break
+			}
 		}
 	}
 	return false
